@@ -767,7 +767,7 @@ class Model:
             if not (isinstance(f, ast.Attribute) and dotted(f.value) == 'self' and f.attr.startswith('_') and not f.attr.endswith('__')
                     and 1 <= uses.get(f.attr, 0) <= MAX_FORMULA_USES):
                 continue
-            if f.attr in known or f.attr.lstrip('_') in known:
+            if f.attr in known or (f.attr.startswith('__') and f.attr.lstrip('_') in known):
                 continue
             owner = call
             while owner is not None and not isinstance(owner, FUNC_TYPES):
@@ -836,13 +836,13 @@ class Model:
                 nuses = self._func_uses.get(modfunc.qualname, 0)
                 if not (1 <= nuses <= MAX_HELPER_USES) or self._orig_size.get(modfunc.qualname, 99) > MAX_SHARED_HELPER_STMTS:
                     continue
-                if f.id in known or f.id.lstrip('_') in known:
+                if f.id in known or (f.id.startswith('__') and f.id.lstrip('_') in known):
                     continue
                 hname = f.id
             else:
                 if not (isinstance(f, ast.Attribute) and f.attr.startswith('_') and not f.attr.endswith('__') and 1 <= uses.get(f.attr, 0) <= MAX_HELPER_USES):
                     continue
-                if f.attr in known or f.attr.lstrip('_') in known:
+                if f.attr in known or (f.attr.startswith('__') and f.attr.lstrip('_') in known):
                     continue    # a unit the rules address by name is analysed as a unit
                 hname = f.attr
             # the statement has to belong to fi itself, not to a nested def
